@@ -191,16 +191,24 @@ def kron_all(ms):
 
 
 # ------------------------------------------------------------------ factors (leaves)
+LAYOUTS = ["C", "F", "strided", "transposed", "readonly", "readonly-F"]
+
+
 def lay(a, layout):
-    """same values, different memory layout: C-contiguous copy, Fortran order, or a strided view into a larger buffer"""
+    """same values, different memory layout / flags: C-contiguous copy, Fortran order, a strided view into a larger buffer, the
+    transposed view of the transposed copy (F-like strides, not owning its data), read-only (C or Fortran ordered)"""
     a = np.array(a, dtype=np.float64)
-    if layout == "F":
-        return np.asfortranarray(a)
-    if layout == "strided":
+    if layout in ("F", "readonly-F"):
+        a = np.asfortranarray(a)
+    elif layout == "strided":
         big = np.full(tuple(2 * k for k in a.shape), 7.25)
         view = big[tuple(slice(None, None, 2) for _ in a.shape)]
         view[...] = a
         return view
+    elif layout == "transposed":
+        return np.ascontiguousarray(a.T).T
+    if layout.startswith("readonly"):
+        a.flags.writeable = False
     return a
 
 
@@ -353,6 +361,13 @@ def chk_perm(ctx, case):
     n = len(names); N = int(np.prod(sizes))
     impl = run_impl(lambda: mu.calc_permutation_matrix(list(names), list(sizes)))
     st, val = m.try_call("c07.perm_map", [MODE, FUEL, n] + names + sizes)
+    if impl[0] == "ok" and case.get("seed", 0) % 3 == 0:
+        first = np.array(impl[1], copy=True)
+        impl[1][...] = 5.0
+        again = run_impl(lambda: mu.calc_permutation_matrix(list(names), list(sizes)))
+        if again[0] != "ok" or again[1].shape != first.shape or not np.array_equal(again[1], first):
+            ctx.violation("perm", "matrix_util.calc_permutation_matrix", "history", "second call after the caller overwrote the first result differs from the first (result cached / aliased)", case)
+        impl = ("ok", first)
     inv = sum(1 for i in range(n) for j in range(i + 1, n) if names[i] > names[j])
     lab = "n%d-inv%d-%s" % (n, min(inv, 3), "ok" if impl[0] == "ok" else "raise")
     ctx.count("perm", key=(tuple(names), tuple(sizes)), nontrivial=inv > 0, label=lab)
@@ -515,6 +530,36 @@ def chk_tree(ctx, case):
         ctx.violation(sub, "operators.tensor_product:" + typ, "model-mismatch", "composite system / shape differs: impl %s %s model %s %s %s" % (inames, idims, mnames, mrs, mcs), case)
     elif maxabs(idata, mdata) > TOL * (1 + np.abs(mdata).max()):
         ctx.violation(sub, "operators.tensor_product:" + typ, "model-mismatch", "values differ from the model, max dev %.3g" % maxabs(idata, mdata), case)
+    # ---- history: the caller overwrites the arrays of the returned object, then the same product is requested again
+    # (no result may be cached / aliased with the first one; the operands' own arrays must be what they were)
+    if case.get("history") and impl[0] == "ok" and maxabs(idata, mdata) <= TOL * (1 + np.abs(mdata).max()) and not (ctx.quick and typ == "gate" and nsys > 2):
+        # (only when the first result was right: a wrong first result is reported by the comparison above, not as a history effect)
+        def arrays(o):
+            if typ == "state":
+                return [o.vec]
+            if typ == "povm":
+                return list(o.vecs)
+            return [o.hs]
+        before = [[np.array(a_, copy=True) for a_ in arrays(l["obj"])] for l in leaves]
+        scribbled = 0
+        for a_ in arrays(impl[1]):
+            if isinstance(a_, np.ndarray) and a_.flags.writeable:
+                a_[...] = 123.0
+                scribbled += 1
+        again = run_impl(lambda: impl_eval(t, leaves, case.get("varargs", True), case.get("aslist", False)))
+        ctx.count(sub, key=("history", repr(case)), nontrivial=scribbled > 0, label="%s-history-%s" % (typ, "scribbled" if scribbled else "readonly-result"))
+        if again[0] != "ok":
+            ctx.violation(sub, "operators.tensor_product:" + typ, "history", "second call after the caller modified the first result raises %s" % (again[1:],), case)
+            return
+        d2 = np.asarray(again[1].vec).reshape(-1, 1) if typ == "state" else (np.array(again[1].vecs) if typ == "povm" else np.asarray(again[1].hs))
+        if maxabs(d2, mdata) > TOL * (1 + np.abs(mdata).max()):
+            ctx.violation(sub, "operators.tensor_product:" + typ, "history", "second call after the caller modified the first result differs from the model (%.3g): result cached / aliased" % maxabs(d2, mdata), case)
+            return
+        for l, bf in zip(leaves, before):
+            if any(maxabs(x, y) != 0.0 for x, y in zip(arrays(l["obj"]), bf)):
+                ctx.violation(sub, "operators.tensor_product:" + typ, "operand-changed", "an operand's array changed (product aliases operand data)", case)
+                return
+        impl = again
     # ---- property predicate on the implementation's output
     r = impl[1]
     inames = [e.name for e in r.composite_system.elemental_systems]
@@ -615,13 +660,13 @@ def gen_tree_cases(ctx, typ, nsys_list, count, sub=None, composite_leaf_prob=0.0
                 k += 2
             else:
                 leaves.append({"names": [names[k]], "dims": [dims[k]], "nout": nouts[k], "seed": rng.randrange(10 ** 9),
-                               "layout": rng.choice(["C", "C", "F", "strided"])})
+                               "layout": rng.choice(["C"] + LAYOUTS)})
                 k += 1
         if len(leaves) < 2:
             continue
         trees = list(all_trees(list(range(len(leaves)))))
         t = rng.choice(trees)
-        cases.append({"typ": typ, "sub": sub or typ, "leaves": leaves, "tree": t, "varargs": rng.random() < 0.8, "aslist": rng.random() < 0.3})
+        cases.append({"typ": typ, "sub": sub or typ, "leaves": leaves, "tree": t, "varargs": rng.random() < 0.8, "aslist": rng.random() < 0.3, "history": rng.random() < 0.4})
     return cases
 
 
@@ -631,9 +676,9 @@ def exhaustive_tree_cases(ctx, typ, dims, names_sorted, nouts, sub=None):
     cases = []
     base_seed = ctx.rng.randrange(10 ** 9)
     for perm in itertools.permutations(range(n)):
-        leaves = [{"names": [names_sorted[p]], "dims": [dims[p]], "nout": nouts[p], "seed": base_seed + p, "layout": ["C", "F", "strided"][(p + len(cases)) % 3]} for p in perm]
+        leaves = [{"names": [names_sorted[p]], "dims": [dims[p]], "nout": nouts[p], "seed": base_seed + p, "layout": LAYOUTS[(p + len(cases)) % 6]} for p in perm]
         for t in all_trees(list(range(n))):
-            cases.append({"typ": typ, "sub": sub or typ, "leaves": leaves, "tree": t, "varargs": True})
+            cases.append({"typ": typ, "sub": sub or typ, "leaves": leaves, "tree": t, "varargs": True, "history": len(cases) % 3 == 0})
     return cases
 
 
@@ -813,7 +858,7 @@ def sub_mprocess(ctx):
         if i % 8 == 1:
             nouts = [2, 2]            # equal counts: the layout defect is invisible in the shape
         cases.append({"kinds": kinds, "leaves": [{"names": [names[k]], "dims": [d[k]], "nout": nouts[k], "seed": rng.randrange(10 ** 9), "phys": i % 3 == 0,
-                                                  "layout": ["C", "F", "strided"][(i + k) % 3]} for k in range(2)]})
+                                                  "layout": LAYOUTS[(i + 2 * k) % 6]} for k in range(2)]})
     ctx.sample("mprocess", cases[0])
     ctx.run_cases("mprocess", chk_mprocess, cases)
     # chains of three operands (varargs and both nestings): the reported shape is the concatenation in ARGUMENT order, also when an
@@ -824,6 +869,12 @@ def sub_mprocess(ctx):
         names = rng.sample(range(0, 9), 3)
         chains.append({"chain": pats[i % 4], "nest": ["varargs", "left", "right", "left"][i % 4] if i < 4 else ["varargs", "left", "right"][i % 3], "names": names,
                        "nouts": rng.sample([2, 3, 2, 4], 3) if i % 2 else [2, 3, 2], "seeds": [rng.randrange(10 ** 9) for _ in range(3)]})
+    if not ctx.quick:
+        # every ORDER of three instruments with pairwise different outcome counts (fold order / argument order), each nesting
+        base = {"names": [5, 1, 3], "nouts": [2, 3, 4], "seeds": [rng.randrange(10 ** 9) for _ in range(3)]}
+        for k, perm in enumerate(itertools.permutations(range(3))):
+            chains.append({"chain": ["m", "m", "m"], "nest": ["varargs", "left", "right"][k % 3], "names": [base["names"][q] for q in perm],
+                           "nouts": [base["nouts"][q] for q in perm], "seeds": [base["seeds"][q] for q in perm]})
     ctx.run_cases("mprocess", chk_mchain, chains)
 
 
@@ -833,6 +884,7 @@ def chk_misc(ctx, case):
     from quara.objects.state_ensemble import StateEnsemble
     from quara.objects.multinomial_distribution import MultinomialDistribution as MD
     from quara.objects.matrix_basis import MatrixBasis, SparseMatrixBasis
+    from scipy import sparse
     kind = case["kind"]
     rng = random.Random(case["seed"])
     if kind == "ensemble":
@@ -909,6 +961,8 @@ def chk_misc(ctx, case):
         b1, b2 = qbasis(d1)[0], qbasis(d2)[0]
         if case.get("dense"):
             b1 = MatrixBasis([dense(x) for x in b1]); b2 = MatrixBasis([dense(x) for x in b2])
+        else:
+            b1 = SparseMatrixBasis([sparse.csr_matrix(dense(x)) for x in b1]); b2 = SparseMatrixBasis([sparse.csr_matrix(dense(x)) for x in b2])
         r = tensor_product(b1, b2)
         ctx.count("misc", key=repr(case), nontrivial=True, label="basis")
         want = [np.kron(x, y) for x in qbasis(d1)[1] for y in qbasis(d2)[1]]
@@ -929,6 +983,32 @@ def chk_misc(ctx, case):
         ctx.count("misc", key=repr(case), nontrivial=False, label="rejected-pair")
         if impl[0] != "err" or impl[1] != "TypeError":
             ctx.violation("misc", "operators._tensor_product", "error-kind", "unsupported pair (%s, %s) must raise TypeError, got %s" % (ta, tb, impl[:2]), case)
+    elif kind == "typepairs":
+        # all 49 ORDERED pairs of operand types: accepted exactly where the model's dispatch table (= operators._tensor_product as
+        # regenerated from the source, coq/gen/C07_Equiv2.v) accepts, TypeError otherwise; the result has the type the table names
+        sa, sb = make_leaf("state", {"names": [0], "dims": [2], "nout": 2, "seed": 1}), make_leaf("state", {"names": [1], "dims": [2], "nout": 2, "seed": 2})
+        def objs(nm, sd):
+            st = [make_leaf("state", {"names": [nm], "dims": [2], "nout": 0, "seed": sd + k}) for k in range(2)]
+            return [make_leaf("gate", {"names": [nm], "dims": [2], "nout": 2, "seed": sd})["obj"],
+                    make_leaf("mprocess", {"names": [nm], "dims": [2], "nout": 2, "seed": sd})["obj"],
+                    SparseMatrixBasis([sparse.csr_matrix(dense(x)) for x in qbasis(2)[0]]), MatrixBasis([dense(x) for x in qbasis(2)[0]]), st[0]["obj"],
+                    StateEnsemble([x["obj"] for x in st], MD(np.array([0.25, 0.75]), shape=(2,))),
+                    make_leaf("povm", {"names": [nm], "dims": [2], "nout": 2 + nm, "seed": sd})["obj"]]
+        A, B = objs(0, 11), objs(1, 23)
+        tnames = ["Gate", "MProcess", "SparseMatrixBasis", "MatrixBasis", "State", "StateEnsemble", "Povm"]
+        restype = {0: "Gate", 1: "MProcess", 2: "MProcess", 3: "MProcess", 4: "State", 5: "StateEnsemble", 6: "Povm", 10: "SparseMatrixBasis",
+                   11: "MatrixBasis", 20: "StateEnsemble", 21: "StateEnsemble"}
+        for i in range(7):
+            for j in range(7):
+                act = int(ctx.get_model().call("c07.tp_dispatch", [i, j])[0])
+                impl = run_impl(lambda: tensor_product(A[i], B[j]))
+                ctx.count("misc", key=("typepair", i, j), nontrivial=act >= 0, label="typepair-%s" % ("accepted" if act >= 0 else "rejected"))
+                if act < 0:
+                    if impl[0] != "err" or impl[1] != "TypeError":
+                        ctx.violation("misc", "operators._tensor_product", "error-kind", "unsupported pair (%s, %s) must raise TypeError, got %s" % (tnames[i], tnames[j], impl[:2]), case)
+                elif impl[0] != "ok" or type(impl[1]).__name__ != restype[act]:
+                    ctx.violation("misc", "operators._tensor_product", "dispatch", "pair (%s, %s): model action %d (%s), implementation %s" % (
+                        tnames[i], tnames[j], act, restype[act], impl[1:] if impl[0] == "err" else type(impl[1]).__name__), case)
     elif kind == "arity":
         la = make_leaf("state", {"names": [0], "dims": [2], "nout": 2, "seed": 1})
         ctx.count("misc", key=repr(case), nontrivial=False, label="arity")
@@ -961,6 +1041,7 @@ def sub_misc(ctx):
     for typ in ("state", "povm", "gate"):
         cases.append({"kind": "dupname", "typ": typ, "seed": 0})
     cases.append({"kind": "arity", "seed": 0})
+    cases.append({"kind": "typepairs", "seed": 0})
     for i in range(ctx.n(3, 12)):
         shp = [[[2], [], [3]], [[2], [3], [2]], [[], [2, 2], [3]], [[3], [2], []]][i % 4]
         cases.append({"kind": "ensemble3", "names": rng.sample(range(8), 3), "shapes": shp, "nest": ["varargs", "left", "right"][i % 3], "seed": rng.randrange(10 ** 9)})
